@@ -486,6 +486,15 @@ ROUND16 = {
 for _k, _v in ROUND16.items():
     CLAIMED[_k]["text"] = CLAIMED[_k]["text"] + " " + _v
 
+# sentences added in the seventeenth round of seeding (six properties)
+ROUND17 = {
+    "C01": "A subject that is being finished is neither counted as launched nor skipped: the iteration ends with 'not satisfied'.",
+    "C02": "The resubmission counter is reset on a successful exit only (C12's obligation re-used).",
+    "C18": "The archive member's name is vetted as it is stored, not after a rewrite.",
+}
+for _k, _v in ROUND17.items():
+    CLAIMED[_k]["text"] = CLAIMED[_k]["text"] + " " + _v
+
 
 def main():
     checks = []
